@@ -338,7 +338,7 @@ def generic_replay(path):
     return 1 if (r.get("violations") or "crashed" in r) else 0
 
 
-def validate_trace(v, module, cfg, tracefile, splitter="New", max_rounds=6):
+def validate_trace(v, module, cfg, tracefile, splitter="New", max_rounds=6, redo=None):
     """Validate; on rejection report the run containing the rejected line, drop it, validate the rest."""
     validated = 0
     stats = {"states": 0, "transitions": 0}
@@ -364,8 +364,16 @@ def validate_trace(v, module, cfg, tracefile, splitter="New", max_rounds=6):
         where = ""
         if run and run[0].get("id") is not None:
             where = f" id={run[0]['id']}" + (f" path={bad['path']}" if isinstance(bad, dict) and bad.get("path") else "")
-        v.add(f"trace rejected by {module}:{where} op={op} {'panic' if (bad or {}).get('ev')=='Panic' else 'not a model step'}",
-              {"kind": "trace-run", "module": module, "cfg": cfg, "run": run, "rejected_event": bad})
+        detail = {"kind": "trace-run", "module": module, "cfg": cfg, "run": run, "rejected_event": bad}
+        if redo is not None and run and run[0].get("ix") is not None:
+            # the driver is deterministic: run it again and have it hand out the script of the rejected run
+            try:
+                d = redo(int(run[0]["ix"]))
+                if d:
+                    detail = dict(d, trace_run=run, rejected_event=bad, module=module)
+            except Exception as e:     # diagnosis only
+                detail["redo_failed"] = str(e)
+        v.add(f"trace rejected by {module}:{where} op={op} {'panic' if (bad or {}).get('ev')=='Panic' else 'not a model step'}", detail)
         validated += sum(1 for l in lines[:start] if json.loads(l).get("ev") == splitter)
         rest = lines[end:]
         if not rest:
